@@ -286,8 +286,12 @@ class Worker:
                 self.read_receipt_mutex.acquire()
                 tasks = cast(list[RuntimeTask], payload)
                 self.most_recent_read_submit = tasks[0].unique_id
-                self._add_task(tasks.pop())  # Submit one task
+                first_task = tasks.pop()
+                # Delay the rest before starting one: the main thread checks
+                # the delayed list outside this lock, so once it can see the
+                # started task it must also see the delayed ones.
                 self._delayed_tasks.extend(tasks)  # Delay rest
+                self._add_task(first_task)  # Submit one task
                 self.read_receipt_mutex.release()
 
             elif msg == RuntimeMessage.RESULT:
